@@ -12,6 +12,13 @@ import lists of every completed scenario (evaluation counters), and — when the
 (fixes/hook-locklog.patch) is applied — the extracted `well_ordered_prefix` validates the observed
 nested acquisitions against one fixed order (the premise of `ordered_no_deadlock`).
 
+Scenario families beside the classic one-program-per-thread scenarios (classes stay clean on the
+unchanged tree): `fresh-names-rounds` — all OS threads released together by a barrier in each of
+many short rounds, compiling programs that introduce the same never-seen field / constructor / string
+names and use them by name; `gc-thread+heap-results` — a dedicated OS thread loops collect() on the
+root (thorough: also on intermediate parents) while children repeatedly evaluate programs whose
+result is a heap closure that is then called from the host and across follow-up evaluations.
+
 Keys: deadlock:<class>  no-termination-busy:<class>  crash:<class>  result-differs-from-solo:<class>
       module-evaluated-twice:<class>  lock-order-cycle:<lock classes>
 """
@@ -202,7 +209,7 @@ def run(ctx):
         # corpus/C14/*.json (minimised scenarios of the findings) are run first, then the generated ones
         extra = ["corpus=" + os.path.join(common.VERIF, "corpus", "C14")]
         if ctx.tier != "thorough":
-            extra.append("scenarios=36")  # + 5 corpus scenarios; sized by measurement (see the report)
+            extra.append("scenarios=28")  # + 7 corpus scenarios + 2x2 family scenarios; sized by measurement
         else:
             extra.append("par=10")
         rc, out = ctx.run_harness("c14", extra=extra, out_dir=out_dir,
